@@ -22,7 +22,7 @@ Separate Extraction
   Parser.p_residual Parser.p_subframe Parser.p_frame_header Parser.p_frame Parser.p_stream_info Parser.bits_of_ss_tag
   Component.header_ops Component.frame_ops Component.streaminfo_ops Component.stream_bytes Component.residual_ops Component.subframe_ops
   Component.residual_count_bits Component.subframe_count_bits Component.header_count_bits Component.frame_count_bits
-  Scratch.sfind Scratch.reset_planes Scratch.sv_reset_from_slice Scratch.run_cache Scratch.exact_key Scratch.fingerprint
+  Scratch.sfind Scratch.reset_planes Scratch.sv_reset_from_slice Scratch.run_cache Scratch.exact_key Scratch.fingerprint Scratch.qlpc_error_buffer
   Api.streaminfo_new Api.framebuf_with_size Api.api_fill_interleaved Api.api_fill_le_bytes Api.api_frame Api.api_stream
   Parser.parse_stream Par.init Par.step Par.final Par.result_of Par.seq_result Par.read_fails Par.enabled Par.nbuf
   FailSink.expand FailSink.write_failing Component.stream_ops
